@@ -189,6 +189,8 @@ def exec_for(P, st, seq, spec):
         if not broke:
             P.exec_block(st.orelse)
         return
+    if spec is not None and spec.get("mode") == "generic":
+        return exec_for_generic(P, st, seq, spec)
     if st.orelse:
         raise Unsupported("for/else over symbolic sequence")
     fr = P.frame
@@ -213,6 +215,48 @@ def exec_for(P, st, seq, spec):
         P.assume(z3.And(i.z >= 0, i.z < zint(P.seq_len(seq))))
         if P.feasible():
             flat.items_at(P, i.z)
+
+
+def exec_for_generic(P, st, seq, spec):
+    """Effectful loop whose iterations touch only the iterated element: observe one generic iteration.
+
+    Either no iteration is observed (the loop is skipped) or exactly one Skolem iteration runs; its writes must
+    go to the iterated element or to objects allocated inside the iteration, otherwise the loop needs an invariant.
+    The contract reads P.ghost['generic_iteration'] = {'element', 'raised'}."""
+    n = P.seq_len(seq)
+    tag = spec.get("name", st.lineno)
+    if spec.get("index") is not None:
+        # the contract fixed the observed (Skolem) iteration; it must be in range of the iterated collection
+        i = spec["index"]
+        if not P.branch(z3.And(i >= 0, i < zint(n))):
+            return
+    else:
+        if not P.branch(z3.Bool(P._fresh_name(f"observe_iteration@{tag}"))):
+            return
+        i = z3.Int(P._fresh_name(f"generic_i@{tag}"))
+        P.assume(z3.And(i >= 0, i < zint(n)))
+    elt = P.seq_at(seq, i)
+    if isinstance(elt, SUnion):
+        elt = P.choose(elt)
+    info = {"element": elt, "raised": False, "index": i}
+    P.ghost["generic_iteration"] = info
+    nwrites = len(P.ghost.get("writes", []))
+    alloc_mark = P.counters.get("@alloc", 0)
+    P.assign(st.target, elt)
+    try:
+        try:
+            P.exec_block(st.body)
+        except ContinueSig:
+            pass
+        except BreakSig:
+            pass
+    except PyExc:
+        info["raised"] = True
+        raise
+    for (o, name) in P.ghost.get("writes", [])[nwrites:]:
+        local = o.ident is not None and z3.is_int_value(o.ident) and o.ident.as_long() < -alloc_mark
+        if o is not elt and not local and name not in spec.get("may_write", ()):
+            raise Unsupported(f"generic loop at line {st.lineno} writes {name} of an object other than the iterated element")
 
 
 def flat_to_seq(P, flat: SFlat, channel):
